@@ -25,6 +25,7 @@ CONSTANTS Clients,          \* client names; a client's side string is its name
           ReentKinds,       \* event kinds whose delegate callback may call close() re-entrantly
           WelcomeErr,       \* BOOLEAN: the server may greet with welcome{error}
           ConnFails,        \* BOOLEAN: the very first connection attempt may fail
+          SrvCloses,        \* BOOLEAN: the server may close a connection with a WebSocket closing handshake (counted as a drop)
           MaxAborts,        \* reconnect attempts whose TCP connection closes before the WebSocket handshake completes (total)
           MaxSrvErr,        \* unprovoked {"type": "error"} frames the server may send (total)
           MaxCloseAt        \* close() may be called while fewer than this many env steps ... (unused: 0)
@@ -51,7 +52,8 @@ Init ==
 \* If the stop happened inside the handler of a frame (re-entrant close), whatever else was already
 \* in the read buffer (here: everything still queued) will be delivered all the same.
 Flush(n, c, cl) == IF n[c].up
-                   THEN [n EXCEPT ![c].c2s = @ \o cl.tx, ![c].closing = @ \/ cl.stopping,
+                   \* (during the server's closing handshake frames are no longer transmitted)
+                   THEN [n EXCEPT ![c].c2s = IF n[c].wsclosing THEN @ ELSE @ \o cl.tx, ![c].closing = @ \/ cl.stopping,
                                   ![c].late = IF ~n[c].closing /\ cl.stopping /\ cl.reentFired /\ ~cs[c].reentFired /\ LateFrames
                                               THEN Len(n[c].s2c) ELSE @]
                    ELSE n
@@ -209,7 +211,7 @@ CloseDone(c) ==
   /\ UNCHANGED bud
 
 Serve(c) ==
-  /\ net[c].up /\ net[c].c2s # <<>>
+  /\ net[c].up /\ net[c].c2s # <<>> /\ ~net[c].wsclosing
   /\ LET r == Handle(srv, [net EXCEPT ![c].c2s = Tail(@)], c, Head(net[c].c2s), AllocChoice) IN
      srv' = r.srv /\ net' = r.net
   /\ lastAct' = Act("Serve", c, Head(net[c].c2s).t, Head(net[c].c2s).x)
@@ -230,7 +232,7 @@ RxFrames(fr) ==
     [] OTHER               -> <<>>
 
 DeliverFrame(c, late) ==
-  /\ net[c].up /\ net[c].s2c # <<>>
+  /\ net[c].up /\ net[c].s2c # <<>> /\ ~net[c].wsclosing
   /\ IF late THEN net[c].closing /\ net[c].late > 0 ELSE ~net[c].closing
   /\ LET fr == Head(net[c].s2c)
          n1 == [net EXCEPT ![c].s2c = Tail(@), ![c].late = IF late THEN @ - 1 ELSE @] IN
@@ -264,6 +266,16 @@ SrvError(c) ==
   /\ bud' = [bud EXCEPT !.srverr = @ - 1]
   /\ lastAct' = Act("SrvError", c, "-", "-")
   /\ UNCHANGED <<cs, srv>>
+
+\* the server goes away gracefully (restart, idle timeout): it sends a WebSocket close frame; once the client has seen it
+\* (everything sent before it has been delivered) the client's websocket is CLOSING: the server reads nothing more, and
+\* whatever the client still tries to send is not transmitted (Autobahn refuses it); a moment later TCP closes (Drop).
+\* Everything un-acknowledged is submitted again on the next connection, as after any loss.
+SrvCloseBegin(c) ==
+  /\ net[c].up /\ ~net[c].closing /\ ~net[c].wsclosing /\ net[c].s2c = <<>> /\ bud.drops[c] > 0 /\ SrvCloses
+  /\ net' = [net EXCEPT ![c].wsclosing = TRUE, ![c].c2s = <<>>]
+  /\ lastAct' = Act("SrvCloseBegin", c, "-", "-")
+  /\ UNCHANGED <<cs, srv, bud>>
 
 \* the mailbox is an unordered set: two adjacent message frames in flight change places
 Swap(c, i) ==
@@ -313,7 +325,7 @@ Next ==
         \/ ConnFail(c) \/ ConnAbort(c) \/ Drop(c) \/ CloseDone(c) \/ Serve(c)
         \/ \E late \in BOOLEAN : DeliverFrame(c, late)
         \/ \E i \in 1..4 : Dup(c, i) \/ Swap(c, i)
-        \/ SrvError(c)
+        \/ SrvError(c) \/ SrvCloseBegin(c)
         \/ \E i \in 1..4, op \in TamperOps : \E v \in TamperValues(op) : Tamper(c, i, op, v)
   \/ \E m \in MailboxIds, msg \in InjectSet : Inject(m, msg)
 
